@@ -1,15 +1,24 @@
-(** Model of the Go TL codec: tl/decoder.go (decode, readByteSlice,
-    decodeVector, Int256.UnmarshalTL), tl/encoder.go (Marshal, EncodeLength,
-    zeroPadding, encodeVector) on descriptors of Go kinds, and the semantics of
-    the mini-language into which the translator maps the bodies of the
-    generated MarshalTL / UnmarshalTL methods (liteclient/generated.go,
-    liteclient/extensions.go).
+(** Model of the Go TL codec: tl/decoder.go (decode, readByteSlice with readN,
+    decodeVector with its bounded pre-allocation, Int256.UnmarshalTL),
+    tl/encoder.go (Marshal, EncodeLength, zeroPadding, encodeVector, the
+    refusal of byte strings of 2^24 bytes or more) on descriptors of Go kinds,
+    and the semantics of the mini-language into which the translator
+    (harness/cmd/translate/c10.go) maps the bodies of the generated
+    MarshalTL / UnmarshalTL methods and request methods of liteclient
+    (generated.go, extensions.go).
 
+    Interface (used by C10, and read-only by C08 / C09):
+      gty, access, stmt, mbody, ubody, binding, bindings, method   the term language
+      find_binding, field_ty, gsize                                lookups, unsafe.Sizeof
+      st, M, mret/mfail/mpanic/mbind, read_full(N), make           reader monad
+      gdec / go_unmarshal    tl.Unmarshal(bytes.NewReader(bs), &x)
+      genc / go_marshal      tl.Marshal(x)
+      go_request / go_response   payload of Client.LiteServerXxx, dispatch of the answer
     The reader is a *bytes.Reader (the only reader the lite client passes).
     Every Go operation that can panic is modelled with its panic condition;
     [alloc] sums the bytes requested by every modelled make()/reflect.MakeSlice,
-    [peak] is the largest single request (a request above the address-space
-    limit is a fatal "out of memory", which recover() cannot catch). *)
+    [peak] is the largest single request.  C10 does not speak about them
+    (Proofs/TlGoP.v: [runs]); the allocation behaviour is C08's subject. *)
 From Coq Require Import String List NArith PArith Arith Lia Bool.
 From Tongo Require Import Lib.Bits Lib.Res Spec.TlWire.
 Import ListNotations.
@@ -371,7 +380,9 @@ Fixpoint genc (B : bindings) (fuel : nat) (t : gty) (ov : option value) {struct 
     | GU32, Some (VNum n) => Ok (le_bytes 4 n)
     | GU64, Some (VNum n) => Ok (le_bytes 8 n)
     | GBool, Some (VBool b) => Ok (if b then [0xb5; 0x75; 0x72; 0x99] else [0x37; 0x97; 0x79; 0xbc])
-    | GBytes, Some (VBytes b) | GString, Some (VBytes b) => Ok (go_bytes b)
+    | GBytes, Some (VBytes b) | GString, Some (VBytes b) =>
+        (* if len(data) > maxBytesLen { return error }: the length prefix has 24 bits *)
+        if N.of_nat (length b) <? two24 then Ok (go_bytes b) else Err EOther
     | GBytes, None => Ok (go_bytes [])
     | GInt256, Some (VBytes b) => Ok b
     | GSlice e, Some (VVec vs) =>
